@@ -69,6 +69,10 @@ def gen_calls(rng, n):
             call["positional"] = True
         if rng.random() < 0.2:
             call["sched_tuple"] = True
+        elif rng.random() < 0.15:
+            call["sched_iter"] = True
+        if rng.random() < 0.2:
+            call["in_order_form"] = rng.choice(["int", "np"])
         if kind in ("QUBO", "QUSO", "PUBO", "PUSO", "PCBO", "PCSO") and rng.random() < 0.25:
             call["remap"] = True          # the user renumbered the labels (set_mapping) before annealing
         if kind != "dict" and terms and "post" not in call and rng.random() < 0.2:
